@@ -36,6 +36,27 @@ macro_rules! build_round {
     }};
 }
 
+/// the `From<Unit>` / `From<(Unit, i64)>` shorthands are the builder with its defaults
+/// (increment 1, half-expand)
+fn forms_agree<T: PartialEq, E>(a: Result<T, E>, b: Result<T, E>) -> bool {
+    match (a, b) {
+        (Ok(x), Ok(y)) => x == y,
+        (Err(_), Err(_)) => true,
+        _ => false,
+    }
+}
+
+macro_rules! check_forms {
+    ($v:expr, $ty:ty, $unit:expr, $inc:expr, $ctx:expr) => {{
+        let (u, i) = ($unit, $inc);
+        ensure!(forms_agree($v.round(u), $v.round(<$ty>::new().smallest(u))), "round-shorthand-differs", "{}: round(unit) differs from the builder with default increment and mode", $ctx);
+        ensure!(forms_agree($v.round((u, i)), $v.round(<$ty>::new().smallest(u).increment(i))), "round-shorthand-differs", "{}: round((unit, increment)) differs from the builder with the default mode", $ctx);
+        // Default::default() is the same starting point as new()
+        ensure!(forms_agree($v.round(<$ty>::default()), $v.round(<$ty>::new())), "round-default-differs", "{}: round(Default::default()) differs from round(new())", $ctx);
+        ensure!(forms_agree($v.round(<$ty>::default().increment(i)), $v.round(<$ty>::new().increment(i))) && forms_agree($v.round(<$ty>::default().smallest(u).increment(i)), $v.round(<$ty>::new().smallest(u).increment(i))), "round-default-differs", "{}: a builder started from Default::default() differs from one started from new() (increment {i})", $ctx);
+    }};
+}
+
 /// units per next-larger unit, for Hour..Nanosecond (index 4..=9)
 fn next_unit_count(unit: usize) -> i64 {
     match unit {
@@ -168,6 +189,7 @@ fn test_timestamp(c: &TsCase, cx: &mut Cx) -> CaseResult {
     let ts = gen::mk_ts(x);
     let got = ts.round(build_round!(TimestampRound, UNITS[c.unit], c.mode.to_jiff(), c.inc));
     let ctx = format!("{ts}.round({:?}, inc {}, {:?})", UNITS[c.unit], c.inc, c.mode);
+    check_forms!(ts, TimestampRound, UNITS[c.unit], c.inc, ctx);
     if !legal {
         cx.class("illegal-increment");
         cx.nt();
@@ -225,6 +247,7 @@ fn test_time(c: &DtCase, cx: &mut Cx) -> CaseResult {
     let t: Time = gen::mk_time(x as i64);
     let got = t.round(build_round!(TimeRound, UNITS[c.unit], c.mode.to_jiff(), c.inc));
     let ctx = format!("{t}.round({:?}, inc {}, {:?})", UNITS[c.unit], c.inc, c.mode);
+    check_forms!(t, TimeRound, UNITS[c.unit], c.inc, ctx);
     if !legal {
         cx.class("illegal-increment");
         cx.nt();
@@ -263,6 +286,7 @@ fn test_datetime(c: &DtCase, cx: &mut Cx) -> CaseResult {
     let dt: DateTime = gen::mk_date(c.ymd.0, c.ymd.1, c.ymd.2).to_datetime(gen::mk_time(x as i64));
     let got = dt.round(build_round!(DateTimeRound, UNITS[c.unit], c.mode.to_jiff(), c.inc));
     let ctx = format!("{dt}.round({:?}, inc {}, {:?})", UNITS[c.unit], c.inc, c.mode);
+    check_forms!(dt, DateTimeRound, UNITS[c.unit], c.inc, ctx);
     if !legal {
         cx.class("illegal-increment");
         cx.nt();
@@ -333,6 +357,7 @@ fn test_duration(c: &DurCase, cx: &mut Cx) -> CaseResult {
     let d = mk_sd(x);
     let got = d.round(build_round!(SignedDurationRound, UNITS[c.unit], c.mode.to_jiff(), c.inc));
     let ctx = format!("{d:?}.round({:?}, inc {}, {:?})", UNITS[c.unit], c.inc, c.mode);
+    check_forms!(d, SignedDurationRound, UNITS[c.unit], c.inc, ctx);
     match legal {
         Some(false) => {
             cx.class("illegal-increment");
@@ -375,6 +400,7 @@ fn test_offset(c: &DurCase, cx: &mut Cx) -> CaseResult {
     let o = Offset::from_seconds(xs as i32).unwrap();
     let got = o.round(build_round!(OffsetRound, UNITS[c.unit], c.mode.to_jiff(), c.inc));
     let ctx = format!("Offset({xs}s).round({:?}, inc {}, {:?})", UNITS[c.unit], c.inc, c.mode);
+    check_forms!(o, OffsetRound, UNITS[c.unit], c.inc, ctx);
     match legal {
         Some(false) => {
             cx.class("illegal-increment");
@@ -432,6 +458,7 @@ fn test_zoned(c: &ZCase, cx: &mut Cx) -> CaseResult {
     let zdt = crate::props::c06::mk_zoned(&z, ns);
     let got = zdt.round(build_round!(ZonedRound, UNITS[c.unit], c.mode.to_jiff(), c.inc));
     let ctx = format!("[{}] {zdt}.round({:?}, inc {}, {:?})", z.label, UNITS[c.unit], c.inc, c.mode);
+    check_forms!(zdt, ZonedRound, UNITS[c.unit], c.inc, ctx);
     if !legal {
         cx.class("illegal-increment");
         cx.nt();
